@@ -350,9 +350,10 @@ def run_case(ctx, i, rng):
     sample = held if len(held) <= 150 else rng.sample(held, 150)
     seqs = [seq(h) for h in sample]
     example_names = [h.name for h in sample[:6]]
+    names_before = [h.name for h in sample]        # (every held reference has been asked for its name once before the edits)
     edits = 0
     for step in range(rng.randint(5, 20)):
-        k = rng.randrange(9)
+        k = rng.randrange(11)
         d = rng.choice(defs)
         try:
             if k == 0 and len(d.children):
@@ -388,6 +389,18 @@ def run_case(ctx, i, rng):
                 p = rng.choice(list(d.ports))
                 if len(p.pins):
                     p.remove_pin(rng.choice(list(p.pins)))
+            elif k == 9:
+                # renames on the paths: the held references answer with the names of NOW
+                x = rng.choice(list(d.children) + list(d.cables) + list(d.ports) or [None])
+                if x is None or not x.name:
+                    continue
+                x.name = "%s_r%d" % (x.name[:20], step)
+            elif k == 10:
+                bs = [b for b in list(d.cables) + list(d.ports) if len(b.wires if isinstance(b, sdn.Cable) else b.pins) >= 1]
+                if not bs:
+                    continue
+                b = rng.choice(bs)
+                b.lower_index = b.lower_index + rng.choice([1, 2, 5])
             else:
                 continue
         except Exception as ex:  # noqa: BLE001
@@ -411,6 +424,18 @@ def run_case(ctx, i, rng):
                 ctx.violation("is_valid-mismatch", "after edit kind %d a %s reference reports valid=%s, path exists=%s" % (
                     k, type(s[-1]).__name__, v, vo))
                 return
+            if vo:
+                ctx.count("post_edit_name_checks")
+                try:
+                    nm_now, nm_want = h.name, oracle_name(s)
+                except Exception as ex:  # noqa: BLE001
+                    ctx.violation("name-raises-after-edit:%s" % type(ex).__name__, "name of a valid %s reference raised %r after edit kind %d" % (
+                        type(s[-1]).__name__, ex, k))
+                    return
+                if nm_now != nm_want:
+                    ctx.violation("name-stale-after-edit", "after edit kind %d a valid %s reference is named %r, the path is now %r" % (
+                        k, type(s[-1]).__name__, nm_now[:60], nm_want[:60]))
+                    return
             try:
                 u = h.is_unique
             except Exception as ex:  # noqa: BLE001
